@@ -185,6 +185,23 @@ Proof.
   - simpl in *. apply IH. exact H.
 Qed.
 
+Lemma filter_len_le {A} (p q : A -> bool) l :
+  (forall x, q x = true -> p x = true) -> length (filter q l) <= length (filter p l).
+Proof.
+  intro H. induction l as [|a l IH]; simpl; [lia|].
+  destruct (q a) eqn:Q; [rewrite (H a Q); simpl; lia | destruct (p a); simpl; lia].
+Qed.
+
+Lemma filter_len_lt {A} (p q : A -> bool) l x :
+  (forall y, q y = true -> p y = true) -> In x l -> p x = true -> q x = false ->
+  length (filter q l) < length (filter p l).
+Proof.
+  intros H Hin Hp Hq. induction l as [|a l IH]; simpl; [destruct Hin|].
+  destruct Hin as [->|Hin].
+  - rewrite Hp, Hq. simpl. assert (L := filter_len_le p q l H). lia.
+  - specialize (IH Hin). destruct (q a) eqn:Q; [rewrite (H a Q); simpl; lia | destruct (p a); simpl; lia].
+Qed.
+
 Section G.
 Variable g : list rule.
 Let n := length g.
@@ -402,23 +419,6 @@ Proof.
 Qed.
 
 (* ---------------------------------------------------------------- counting *)
-Lemma filter_len_le {A} (p q : A -> bool) l :
-  (forall x, q x = true -> p x = true) -> length (filter q l) <= length (filter p l).
-Proof.
-  intro H. induction l as [|a l IH]; simpl; [lia|].
-  destruct (q a) eqn:Q; [rewrite (H a Q); simpl; lia | destruct (p a); simpl; lia].
-Qed.
-
-Lemma filter_len_lt {A} (p q : A -> bool) l x :
-  (forall y, q y = true -> p y = true) -> In x l -> p x = true -> q x = false ->
-  length (filter q l) < length (filter p l).
-Proof.
-  intros H Hin Hp Hq. induction l as [|a l IH]; simpl; [destruct Hin|].
-  destruct Hin as [->|Hin].
-  - rewrite Hp, Hq. simpl. assert (L := filter_len_le p q l H). lia.
-  - specialize (IH Hin). destruct (q a) eqn:Q; [rewrite (H a Q); simpl; lia | destruct (p a); simpl; lia].
-Qed.
-
 Definition cnt (p : nat -> bool) : nat := length (filter p (seq 0 n)).
 
 Lemma cnt_bound p : cnt p <= n.
@@ -713,3 +713,356 @@ Proof.
 Qed.
 
 End G.
+
+(* ------------------------------------------------------------------ textx_isinstance: the visited-set search *)
+Section Dfs.
+Variable inhf : nat -> list nat.
+Variable n : nat.
+Hypothesis Hrange : forall x y, In y (inhf x) -> y < n.
+
+Fixpoint dfs_list (f : nat) (k : nat) (l : list nat) (vis : nat -> bool) : option (bool * (nat -> bool)) :=
+  match l with
+  | [] => Some (false, vis)
+  | c :: l' => if vis c then dfs_list f k l' vis else
+               match dfs inhf f k c vis with
+               | None => None
+               | Some (true, v) => Some (true, v)
+               | Some (false, v) => dfs_list f k l' v
+               end
+  end.
+
+Lemma dfs_S f k r vis : dfs inhf (S f) k r vis =
+  if Nat.eqb k r then Some (true, vis) else dfs_list f k (inhf r) (upd vis r true).
+Proof.
+  simpl. destruct (Nat.eqb k r); [reflexivity|].
+  generalize (upd vis r true). induction (inhf r) as [|a l IH]; intro v; simpl; [reflexivity|].
+  destruct (v a); [apply IH|]. destruct (dfs inhf f k a v) as [[[|] v']|]; [reflexivity | apply IH | reflexivity].
+Qed.
+
+Lemma dfs_sound : forall f k r vis v, dfs inhf f k r vis = Some (true, v) -> ireach inhf r k.
+Proof.
+  induction f as [|f IH]; intros k r vis v H; [discriminate|].
+  rewrite dfs_S in H. destruct (Nat.eqb k r) eqn:E.
+  - apply Nat.eqb_eq in E. subst. apply ireach_refl.
+  - assert (HL : forall l v1, dfs_list f k l v1 = Some (true, v) -> exists c, In c l /\ ireach inhf c k).
+    { induction l as [|c l IHl]; intros v1 H1; simpl in H1; [discriminate|].
+      destruct (v1 c).
+      - destruct (IHl v1 H1) as [c' [Hc Hr]]. exists c'. split; [right; exact Hc | exact Hr].
+      - destruct (dfs inhf f k c v1) as [[[|] v2]|] eqn:D; [|..].
+        + exists c. split; [left; reflexivity | apply (IH k c v1 v2 D)].
+        + destruct (IHl v2 H1) as [c' [Hc Hr]]. exists c'. split; [right; exact Hc | exact Hr].
+        + discriminate. }
+    destruct (HL _ _ H) as [c [Hc Hr]]. apply (ireach_step inhf r c k Hc Hr).
+Qed.
+
+Definition vmono (a b : nat -> bool) : Prop := forall z, a z = true -> b z = true.
+Definition vclosed (k : nat) (a b : nat -> bool) : Prop :=
+  forall z, b z = true -> a z = true \/ (z <> k /\ forall c, In c (inhf z) -> b c = true).
+
+Lemma dfs_mono : forall f k r vis b v, dfs inhf f k r vis = Some (b, v) -> vmono vis v.
+Proof.
+  induction f as [|f IH]; intros k r vis b v H; [discriminate|].
+  rewrite dfs_S in H. destruct (Nat.eqb k r); [inversion H; subst; intros z Hz; exact Hz|].
+  assert (HL : forall l v1, dfs_list f k l v1 = Some (b, v) -> vmono v1 v).
+  { induction l as [|c l IHl]; intros v1 H1; simpl in H1; [inversion H1; subst; intros z Hz; exact Hz|].
+    destruct (v1 c); [apply IHl; exact H1|].
+    destruct (dfs inhf f k c v1) as [[[|] v2]|] eqn:D; [| |discriminate].
+    - inversion H1; subst. apply (IH k c v1 true v D).
+    - intros z Hz. apply (IHl v2 H1). apply (IH k c v1 false v2 D). exact Hz. }
+  intros z Hz. apply (HL _ _ H). unfold upd. destruct (Nat.eqb z r); [reflexivity | exact Hz].
+Qed.
+
+Lemma dfs_false : forall f k r vis v, dfs inhf f k r vis = Some (false, v) ->
+  v r = true /\ vclosed k vis v.
+Proof.
+  induction f as [|f IH]; intros k r vis v H; [discriminate|].
+  rewrite dfs_S in H. destruct (Nat.eqb k r) eqn:E; [discriminate|]. apply Nat.eqb_neq in E.
+  assert (HL : forall l v1, dfs_list f k l v1 = Some (false, v) ->
+                            (forall c, In c l -> v c = true) /\ vclosed k v1 v).
+  { induction l as [|c l IHl]; intros v1 H1; simpl in H1.
+    - inversion H1; subst. split; [intros c []|]. intros z Hz. left. exact Hz.
+    - destruct (v1 c) eqn:Vc.
+      + destruct (IHl v1 H1) as [A B]. split; [|exact B].
+        intros c' [<-|Hc]; [|apply A; exact Hc].
+        assert (M : vmono v1 v).
+        { clear - H1 IH. revert v1 H1. induction l as [|c' l IHl']; intros v1 H1; simpl in H1;
+            [inversion H1; subst; intros z Hz; exact Hz|].
+          destruct (v1 c'); [apply IHl'; exact H1|].
+          destruct (dfs inhf f k c' v1) as [[[|] v2]|] eqn:D; [discriminate| |discriminate].
+          intros z Hz. apply (IHl' v2 H1). apply (dfs_mono f k c' v1 false v2 D). exact Hz. }
+        apply M. exact Vc.
+      + destruct (dfs inhf f k c v1) as [[[|] v2]|] eqn:D; [discriminate| |discriminate].
+        destruct (IH k c v1 v2 D) as [Hc2 C2]. destruct (IHl v2 H1) as [A B].
+        assert (M : vmono v2 v).
+        { clear - H1 IH. revert v2 H1. induction l as [|c' l IHl']; intros v2 H1; simpl in H1;
+            [inversion H1; subst; intros z Hz; exact Hz|].
+          destruct (v2 c'); [apply IHl'; exact H1|].
+          destruct (dfs inhf f k c' v2) as [[[|] v3]|] eqn:D; [discriminate| |discriminate].
+          intros z Hz. apply (IHl' v3 H1). apply (dfs_mono f k c' v2 false v3 D). exact Hz. }
+        split.
+        * intros c' [<-|Hc]; [apply M; exact Hc2 | apply A; exact Hc].
+        * intros z Hz. destruct (B z Hz) as [Hz2|Hz2]; [|right; exact Hz2].
+          destruct (C2 z Hz2) as [Hz1|[Hne Hs]]; [left; exact Hz1|].
+          right. split; [exact Hne|]. intros c' Hc'. apply M. apply Hs. exact Hc'. }
+  destruct (HL _ _ H) as [A B].
+  assert (M := dfs_mono (S f) k r vis false v). rewrite dfs_S in M.
+  destruct (Nat.eqb k r) eqn:E'; [apply Nat.eqb_eq in E'; congruence|]. specialize (M H).
+  assert (Hr : v r = true).
+  { clear - H IH. assert (HM : forall l v1, dfs_list f k l v1 = Some (false, v) -> vmono v1 v).
+    { induction l as [|c l IHl]; intros v1 H1; simpl in H1; [inversion H1; subst; intros z Hz; exact Hz|].
+      destruct (v1 c); [apply IHl; exact H1|].
+      destruct (dfs inhf f k c v1) as [[[|] v2]|] eqn:D; [discriminate| |discriminate].
+      intros z Hz. apply (IHl v2 H1). apply (dfs_mono f k c v1 false v2 D). exact Hz. }
+    apply (HM _ _ H). apply upd_same. }
+  split; [exact Hr|].
+  intros z Hz. destruct (B z Hz) as [Hz1|Hz1]; [|right; exact Hz1].
+  unfold upd in Hz1. destruct (Nat.eqb z r) eqn:Ez; [|left; exact Hz1].
+  apply Nat.eqb_eq in Ez. subst z. right. split; [congruence | exact A].
+Qed.
+
+Lemma dfs_complete f k r v : dfs inhf f k r (fun _ => false) = Some (false, v) -> ~ ireach inhf r k.
+Proof.
+  intros H Hr. destruct (dfs_false f k r _ v H) as [Hv C].
+  assert (G : forall z, ireach inhf z k -> v z = true -> False).
+  { intros z Hz. induction Hz as [z | z y w Hy Hyw IH]; intro Vz.
+    - destruct (C z Vz) as [F|[F _]]; [discriminate | congruence].
+    - destruct (C z Vz) as [F|[_ F]]; [discriminate|]. apply (IH H Hr C). apply F. exact Hy. }
+  exact (G r Hr Hv).
+Qed.
+
+Definition uv (vis : nat -> bool) : nat := length (filter (fun x => negb (vis x)) (seq 0 n)).
+
+Lemma uv_mono a b : vmono a b -> uv b <= uv a.
+Proof.
+  intro M. unfold uv. apply filter_len_le. intros x H. apply negb_true_iff in H. apply negb_true_iff.
+  destruct (a x) eqn:E; [rewrite (M x E) in H; discriminate | reflexivity].
+Qed.
+
+Lemma uv_upd c vis : c < n -> vis c = false -> uv (upd vis c true) < uv vis.
+Proof.
+  intros Hc Hv. unfold uv. apply filter_len_lt with (x := c).
+  - intros y H. unfold upd in H. destruct (Nat.eqb y c); [discriminate | exact H].
+  - apply in_seq. lia.
+  - rewrite Hv. reflexivity.
+  - rewrite upd_same. reflexivity.
+Qed.
+
+Lemma dfs_nooof : forall f k r vis, uv (upd vis r true) < f -> dfs inhf f k r vis <> None.
+Proof.
+  induction f as [|f IH]; intros k r vis Hu; [lia|].
+  rewrite dfs_S. destruct (Nat.eqb k r); [discriminate|].
+  assert (HL : forall l v1, (forall c, In c l -> c < n) -> uv v1 <= f -> dfs_list f k l v1 <> None).
+  { induction l as [|c l IHl]; intros v1 Hl Hv; simpl; [discriminate|].
+    destruct (v1 c) eqn:Vc; [apply IHl; [intros; apply Hl; right; assumption | exact Hv]|].
+    assert (Hc : uv (upd v1 c true) < f).
+    { assert (L := uv_upd c v1 (Hl c (or_introl eq_refl)) Vc). lia. }
+    destruct (dfs inhf f k c v1) as [[[|] v2]|] eqn:D; [discriminate| |exfalso; exact (IH k c v1 Hc D)].
+    apply IHl; [intros; apply Hl; right; assumption|].
+    assert (L := uv_mono v1 v2 (dfs_mono f k c v1 false v2 D)). lia. }
+  apply HL; [intros c Hc; apply (Hrange r c Hc) | lia].
+Qed.
+
+Lemma isinstance_graph k r :
+  exists b, isinstance n inhf k (Some r) = Some b /\ (b = true <-> ireach inhf r k).
+Proof.
+  unfold isinstance.
+  assert (Hn : dfs inhf (S n) k r (fun _ => false) <> None).
+  { apply dfs_nooof. unfold uv. assert (L : forall p (l : list nat), length (filter p l) <= length l).
+    { intros p l. induction l as [|a l IH]; simpl; [lia | destruct (p a); simpl; lia]. }
+    specialize (L (fun x => negb (upd (fun _ => false) r true x)) (seq 0 n)). rewrite seq_length in L. lia. }
+  destruct (dfs inhf (S n) k r (fun _ => false)) as [[b v]|] eqn:D; [|congruence].
+  exists b. split; [reflexivity|]. destruct b.
+  - split; [intros _; apply (dfs_sound _ _ _ _ _ D) | reflexivity].
+  - split; [discriminate | intro H; exfalso; exact (dfs_complete _ _ _ _ D H)].
+Qed.
+End Dfs.
+
+(* recorded inheritance only follows references of abstract rules to non-match rules *)
+Lemma ireach_reach g s : Inv2 g s -> forall r k, ireach (inh s) r k -> reach g (types s) r k.
+Proof.
+  intros H2 r k H. induction H as [x | x y z Hy Hyz IH]; [apply reach_refl|].
+  destruct (H2 x y Hy) as [Hx [Hr Hm]]. apply (reach_step g (types s) x y z Hx Hr); [|exact IH].
+  apply is_match_false. exact Hm.
+Qed.
+
+Theorem isinstance_correct g :
+  exists s, determine_types g = Some s /\
+    forall k r, exists b, isinstance (length g) (inh s) k (Some r) = Some b /\
+                          (b = true <-> ireach (inh s) r k) /\
+                          (b = true -> reach g (types s) r k).
+Proof.
+  destruct (kinds_correct g) as [s [H1 [H2 H3]]]. exists s. split; [exact H1|].
+  intros k r.
+  assert (Hrange : forall x y, In y (inh s x) -> y < length g).
+  { intros x y Hy. destruct (H3 x y Hy) as [_ [_ Hm]].
+    destruct (Nat.lt_ge_cases y (length g)) as [L|G]; [exact L|]. exfalso.
+    assert (K := H2 y). unfold kind_spec, rule_refs in K. rewrite (rule_of_overflow g y G) in K.
+    destruct (types s y); simpl in *; [discriminate | destruct K as [_ [w [[] _]]] | discriminate]. }
+  destruct (isinstance_graph (inh s) (length g) Hrange k r) as [b [Hb Hiff]].
+  exists b. split; [exact Hb|]. split; [exact Hiff|].
+  intro E. apply (ireach_reach g s H3). apply Hiff. exact E.
+Qed.
+
+(* ------------------------------------------------------------------ building objects *)
+Section TreeInd.
+Variable P : tree -> Prop.
+Hypothesis HT : forall s, P (TT s).
+Hypothesis HN : forall r kids, Forall P kids -> P (TN r kids).
+Hypothesis HA : forall kids, Forall P kids -> P (TA kids).
+Fixpoint tree_ind' (t : tree) : P t :=
+  match t with
+  | TT s => HT s
+  | TN r kids => HN r kids ((fix go (l : list tree) : Forall P l :=
+                              match l with [] => Forall_nil P | x :: l' => Forall_cons x (tree_ind' x) (go l') end) kids)
+  | TA kids => HA kids ((fix go (l : list tree) : Forall P l :=
+                              match l with [] => Forall_nil P | x :: l' => Forall_cons x (tree_ind' x) (go l') end) kids)
+  end.
+End TreeInd.
+
+Fixpoint vals_of (K : nat -> kind) (l : list tree) : list value :=
+  match l with
+  | [] => []
+  | TA ks :: l' => map (process K) ks ++ vals_of K l'
+  | _ :: l' => vals_of K l'
+  end.
+
+Fixpoint pick_nm (K : nat -> kind) (l : list tree) : option tree :=
+  match l with [] => None | k :: l' => if nonmatch_node K k then Some k else pick_nm K l' end.
+
+Fixpoint first_nt (l : list tree) : option tree :=
+  match l with [] => None | k :: l' => match k with TT _ => first_nt l' | _ => Some k end end.
+
+Lemma process_common K r kids : K r = KCommon -> process K (TN r kids) = VObj r (vals_of K kids).
+Proof.
+  intro H. simpl. rewrite H. f_equal.
+  induction kids as [|k kids IH]; [reflexivity|].
+  destruct k as [s|r' ks|ks]; simpl; try exact IH. rewrite <- IH. reflexivity.
+Qed.
+
+Lemma process_match K r kids : K r = KMatch -> process K (TN r kids) = VStr (flat (TN r kids)).
+Proof. intro H. simpl. rewrite H. reflexivity. Qed.
+
+Definition abstract_result (K : nat -> kind) (r : nat) (kids : list tree) : value :=
+  match kids with
+  | [] => VStr []
+  | [k] => process K k
+  | _ => match pick_nm K kids with
+         | Some k => process K k
+         | None => match first_nt kids with
+                   | Some k => process K k
+                   | None => VStr (flat (TN r kids))
+                   end
+         end
+  end.
+
+Lemma pick_eq K (V : value) (l : list tree) :
+  (fix pick (l : list tree) : value :=
+     match l with [] => V | k :: l' => if nonmatch_node K k then process K k else pick l' end) l
+  = match pick_nm K l with Some k => process K k | None => V end.
+Proof. induction l as [|a l IH]; simpl; [reflexivity | destruct (nonmatch_node K a); [reflexivity | exact IH]]. Qed.
+
+Lemma first_eq K (V : value) (m : list tree) :
+  (fix first_nt (m : list tree) : value :=
+     match m with [] => V | k :: m' => match k with TT _ => first_nt m' | _ => process K k end end) m
+  = match first_nt m with Some k => process K k | None => V end.
+Proof. induction m as [|a m IH]; simpl; [reflexivity | destruct a; [exact IH | reflexivity | reflexivity]]. Qed.
+
+Lemma process_abstract K r kids : K r = KAbstract -> process K (TN r kids) = abstract_result K r kids.
+Proof.
+  intro H. unfold abstract_result.
+  destruct kids as [|k1 [|k2 kids]]; [simpl; rewrite H; reflexivity | simpl; rewrite H; reflexivity|].
+  simpl. rewrite H.
+  destruct (nonmatch_node K k1); [reflexivity|]. destruct (nonmatch_node K k2); [reflexivity|].
+  etransitivity; [apply pick_eq|].
+  destruct (pick_nm K kids); [reflexivity|].
+  destruct k1; [|reflexivity|reflexivity]. destruct k2; [|reflexivity|reflexivity].
+  apply first_eq.
+Qed.
+
+Lemma objs_VObj c vs : objs (VObj c vs) = c :: flat_map objs vs.
+Proof. reflexivity. Qed.
+
+Lemma pick_nm_In K l k : pick_nm K l = Some k -> In k l.
+Proof.
+  induction l as [|a l IH]; simpl; [discriminate|]. destruct (nonmatch_node K a).
+  - intro H. inversion H. auto.
+  - intro H. right. apply IH. exact H.
+Qed.
+
+Lemma first_nt_In l k : first_nt l = Some k -> In k l.
+Proof.
+  induction l as [|a l IH]; simpl; [discriminate|]. destruct a; intro H;
+    [right; apply IH; exact H | inversion H; left; reflexivity | inversion H; left; reflexivity].
+Qed.
+
+Definition all_common (K : nat -> kind) (v : value) : Prop := Forall (fun c => K c = KCommon) (objs v).
+
+Theorem only_common_instances K : forall t, all_common K (process K t).
+Proof.
+  assert (G : forall t, all_common K (process K t) /\
+                        match t with TA ks => Forall (fun k => all_common K (process K k)) ks | _ => True end).
+  { induction t as [s|r kids IH|kids IH] using tree_ind'.
+    - split; [apply Forall_nil | exact I].
+    - split; [|exact I]. destruct (K r) eqn:E.
+      + rewrite (process_match K r kids E). apply Forall_nil.
+      + rewrite (process_abstract K r kids E). unfold abstract_result.
+        assert (Hin : forall k, In k kids -> all_common K (process K k)).
+        { intros k Hk. rewrite Forall_forall in IH. apply (proj1 (IH k Hk)). }
+        destruct kids as [|k1 [|k2 kids]]; [apply Forall_nil | apply Hin; left; reflexivity|].
+        destruct (pick_nm K (k1 :: k2 :: kids)) eqn:Pk; [apply Hin; apply (pick_nm_In K _ _ Pk)|].
+        destruct (first_nt (k1 :: k2 :: kids)) eqn:Fk; [apply Hin; apply (first_nt_In _ _ Fk) | apply Forall_nil].
+      + rewrite (process_common K r kids E). unfold all_common. rewrite objs_VObj.
+        apply Forall_cons; [exact E|].
+        induction IH as [|k kids Hk _ IHl]; [apply Forall_nil|].
+        destruct k as [s|r' ks|ks]; simpl; try exact IHl.
+        rewrite flat_map_app. apply Forall_app. split; [|exact IHl].
+        destruct Hk as [_ Hks]. clear - Hks. induction Hks as [|a ks Ha _ IHk]; simpl; [apply Forall_nil|].
+        apply Forall_app. split; [exact Ha | exact IHk].
+    - split; [apply Forall_nil|]. rewrite Forall_forall in *. intros k Hk. apply (proj1 (IH k Hk)). }
+  intro t. apply (proj1 (G t)).
+Qed.
+
+(* the first node of an abstract / common rule decides, whatever precedes or follows it *)
+Lemma pick_nm_first K pre k post :
+  (forall p, In p pre -> nonmatch_node K p = false) -> nonmatch_node K k = true ->
+  pick_nm K (pre ++ k :: post) = Some k.
+Proof.
+  intros Hp Hk. induction pre as [|a pre IH]; simpl; [rewrite Hk; reflexivity|].
+  rewrite (Hp a (or_introl eq_refl)). apply IH. intros p H. apply Hp. right. exact H.
+Qed.
+
+Theorem abstract_first_nonmatch K r pre k post :
+  K r = KAbstract ->
+  (forall p, In p pre -> nonmatch_node K p = false) -> nonmatch_node K k = true ->
+  process K (TN r (pre ++ k :: post)) = process K k.
+Proof.
+  intros Hr Hp Hk. rewrite (process_abstract K r _ Hr). unfold abstract_result.
+  assert (Pk := pick_nm_first K pre k post Hp Hk).
+  destruct (pre ++ k :: post) as [|k1 [|k2 l]] eqn:E.
+  - destruct pre; discriminate.
+  - simpl in Pk. destruct (nonmatch_node K k1); [inversion Pk; reflexivity | discriminate].
+  - rewrite Pk. reflexivity.
+Qed.
+
+Lemma first_nt_none l : (forall p, In p l -> exists s, p = TT s) -> first_nt l = None.
+Proof.
+  induction l as [|a l IH]; intro H; [reflexivity|]. simpl.
+  destruct (H a (or_introl eq_refl)) as [s ->]. apply IH. intros p Hp. apply H. right. exact Hp.
+Qed.
+
+Lemma pick_nm_none_terms K l : (forall p, In p l -> exists s, p = TT s) -> pick_nm K l = None.
+Proof.
+  induction l as [|a l IH]; intro H; [reflexivity|]. simpl.
+  destruct (H a (or_introl eq_refl)) as [s ->]. simpl. apply IH. intros p Hp. apply H. right. exact Hp.
+Qed.
+
+Theorem abstract_all_terminals K r kids :
+  K r = KAbstract -> (forall p, In p kids -> exists s, p = TT s) ->
+  process K (TN r kids) = VStr (flat (TN r kids)).
+Proof.
+  intros Hr Ht. rewrite (process_abstract K r _ Hr). unfold abstract_result.
+  destruct kids as [|k1 [|k2 l]].
+  - reflexivity.
+  - destruct (Ht k1 (or_introl eq_refl)) as [s ->]. simpl. rewrite app_nil_r. reflexivity.
+  - rewrite (pick_nm_none_terms K _ Ht), (first_nt_none _ Ht). reflexivity.
+Qed.
